@@ -1100,7 +1100,8 @@ def shrink_candidates(case):
             if 'mat' in cc['spec']:
                 cc['spec']['mat']['n'] = v
             for op in cc['ops']:
-                op['cmask'] = op['cmask'][:v]
+                if 'cmask' in op:
+                    op['cmask'] = op['cmask'][:v]
                 if op.get('rmask') is not None:
                     op['rmask'] = op['rmask'][:v]
             yield cc
@@ -1111,8 +1112,19 @@ def shrink_candidates(case):
                 if key == 'rcons':
                     cc['ops'][i]['rmask'] = None
                 yield cc
-        if any(op['cmask']):
+        if any(op.get('cmask', ())):
             yield shrink.with_key(c, ['ops', i, 'cmask'], [False] * len(op['cmask']))
+        if c['kind'] == 'project':
+            for key, simple in (('exact_boundaries', False), ('atol', 0.), ('solver', 'direct')):
+                if op.get(key) != simple:
+                    yield shrink.with_key(c, ['ops', i, key], simple)
+    if c['kind'] == 'project':
+        for key, simple in (('mesh', 'line'), ('btype', 'std'), ('degree', 1)):
+            if c['spec'][key] != simple:
+                yield shrink.with_key(c, ['spec', key], simple)
+        for v in shrink.int_reductions(c['spec']['nelems'], 1):
+            yield shrink.with_key(c, ['spec', 'nelems'], v)
+        return
     spec = c['spec'].get('mat', c['spec'])
     if spec.get('cond') not in ('id', 'well'):
         cc = copy.deepcopy(c)
